@@ -100,6 +100,9 @@ TLC_EVENT_KEYS = {
 }
 
 
+MAX_TRACE_LINES = 25000
+
+
 def export_trace(tid: str, events: list[dict], keep=TLC_EVENT_KEYS) -> list[str]:
     """Turn recorded events into NDJSON lines for TraceCheck.tla."""
     lines = []
@@ -137,6 +140,13 @@ def export_trace(tid: str, events: list[dict], keep=TLC_EVENT_KEYS) -> list[str]
                 "res": sorted([k, int(v)] for k, v in res.items()),
             }
         lines.append(json.dumps(rec, separators=(",", ":"), sort_keys=True))
+        if len(lines) >= MAX_TRACE_LINES:
+            # a build of one of these small projects that logs this many critical sections is going round
+            # in circles (the director would only be stopped by the CPU watchdog): the trace is cut here and
+            # ends like a build that never ends
+            lines.append(json.dumps({"ev": "hang", "tid": tid, "k": len(lines) + 1, "why": f"more than {MAX_TRACE_LINES} logged events"},
+                                    separators=(",", ":"), sort_keys=True))
+            break
     return lines
 
 
